@@ -101,36 +101,55 @@ def handle (op : String) (req : Json) : R Json := do
     let file := (← getStr req "file").toList
     pure (jObj [("real", jLoad file), ("comma", jStr (String.ofList (normalise file))), ("real_comma", jLoad (normalise file))])
   | "c16.vtk" =>
+    -- `endian`: sys.byteorder's name; `spacing`: str(spacing[i]) as Python prints them; `head`: the header text
+    -- of the real file up to and including the marker `_`
     let n0 ← getNat req "n0"
     let n1 ← getNat req "n1"
     let n2 ← getNat req "n2"
+    let endian := (← getStr req "endian").toList
+    let sp ← getList asStr req "spacing"
+    let spacing ← match sp with
+      | [a, b, c] => pure (a.toList, b.toList, c.toList)
+      | _ => throw "three spacing tokens expected"
+    let realHead := (← getStr req "head").toList
     let fields ← getList (fun f => do
       let nm ← getStr f "name"
       let data ← getList asInt f "data"
       if data.length ≠ n0 * n1 * n2 then throw "data/shape mismatch"
       let arr := data.toArray
-      let v : Vol Int := { n0 := n0, n1 := n1, n2 := n2, get := fun i j k => arr.getD ((i * n1 + j) * n2 + k) 0 }
-      pure (nm, v)) req "fields"
-    let mblocks := fields.map (fun f => vtkBlock f.2)
-    let sblocks := fields.map (fun f => vtkBlockSpec f.2)
-    let moffs := offsetsFrom 0 (mblocks.map List.length)
-    let soffs := offsetsFrom 0 (fields.map (fun _ => n1 * n0 * n2))
-    let arrays := fun (names : List String) (offs : List Nat) (blocks : List (List Int)) =>
-      jList (fun (x : String × Nat × List Int) =>
-        jObj [("name", jStr x.1), ("offset", jNat x.2.1), ("nbytes", jNat (x.2.2.length * 8)),
-              ("values", jList jInt x.2.2)]) (List.zip names (List.zip offs blocks))
-    let shaped := match fields with
-      | [] => [n1, n0, n2]
-      | f :: _ => let w := swap01 (flip0 f.2); [w.n0, w.n1, w.n2]
-    let mnames := fields.map (fun f => String.ofList (unescape (escapeMech f.1.toList)))
-    let snames := fields.map (fun f => f.1)
-    pure (jObj [
-      ("model", jObj [("extent", jList jNat shaped), ("arrays", arrays mnames moffs mblocks),
-                      ("appended", jList jWord (appended mblocks)),
-                      ("escaped", jList jStr (fields.map fun f => String.ofList (escapeMech f.1.toList)))]),
-      ("spec", jObj [("extent", jList jNat [n1, n0, n2]), ("arrays", arrays snames soffs sblocks),
-                     ("appended", jList jWord (appended sblocks)),
-                     ("escaped", jList jStr (fields.map fun f => String.ofList (escapeSpec f.1.toList)))])])
+      pure ({ name := nm.toList, get := fun i j k => arr.getD ((i * n1 + j) * n2 + k) 0 } : Field Int)) req "fields"
+    let img : Image Int := { n0 := n0, n1 := n1, n2 := n2, fields := fields }
+    let jS := fun (x : Str) => jStr (String.ofList x)
+    let jMeta := fun (m : VtkMeta) => jObj [
+      ("file_type", jS m.fileType), ("version", jS m.version), ("byte_order", jS m.byteOrder),
+      ("header_type", jS m.headerType), ("whole", jList jNat m.whole), ("piece", jList jNat m.piece),
+      ("origin", jList jS m.origin), ("spacing", jList jS m.spacing), ("scalars", jS m.scalars),
+      ("encoding", jS m.encoding),
+      ("arrays", jList (fun (a : ArrayMeta) => jObj [("name", jS a.name), ("type", jS a.type), ("format", jS a.format),
+                                                      ("offset", jNat a.offset)]) m.arrays)]
+    let jBlock := fun (b : Option (Nat × List Int)) => match b with
+      | some (n, vs) => jObj [("nbytes", jNat n), ("values", jList jInt vs)]
+      | none => jObj [("unreadable", jBool true)]
+    let specMeta := vtkMetaSpec endian spacing img
+    let specBlocks := fields.map fun f => vtkBlockSpec (img.vol f)
+    let specSide := jObj [("meta", jMeta specMeta),
+      ("blocks", jList (fun (b : List Int) => jBlock (some (b.length * 8, b))) specBlocks),
+      ("appended", jList jWord (appended specBlocks))]
+    let okB := headOkB endian spacing (fields.map (·.name))
+    let realMeta := jOpt jMeta (vtkParse realHead)         -- the Lean reader on the real header text
+    match vtkRender endian spacing img with
+    | none =>
+      pure (jObj [("rendered", .null), ("model", jObj [("raises", jBool true)]), ("spec", specSide),
+                  ("head_ok", jBool okB), ("real_meta", realMeta)])
+    | some file =>
+      let modelSide := match vtkParse file.head with
+        | none => jObj [("unreadable", jBool true)]
+        | some m => jObj [("meta", jMeta m),
+            ("blocks", jList (fun (a : ArrayMeta) => jBlock (readBlock file.body a.offset)) m.arrays),
+            ("appended", jList jWord file.body)]
+      pure (jObj [
+        ("rendered", jObj [("head", jS file.head), ("words", jList jWord file.body), ("tail", jS file.tail)]),
+        ("model", modelSide), ("spec", specSide), ("head_ok", jBool okB), ("real_meta", realMeta)])
   | _ => throw s!"unknown op {op}"
 
 end PewDriver.C16
